@@ -3,6 +3,7 @@
    wf_graphb / no_input_returned / imports_ok (Graph/Wf.v); these theorems say what a `true` means. *)
 From Coq Require Import List String Bool.
 Require Import OV.Graph.Syntax OV.Graph.Wf OV.Graph.WfProofs.
+Require Import OV.Script.Translate OV.Script.TranslateProofs.
 Import ListNotations.
 
 (* checker soundness: a proto on which the checker answers true is well formed in the declarative sense
@@ -45,3 +46,12 @@ Theorem C02_imports_reflect : forall imports g,
   imports_ok imports g = true <-> (NoDup imports /\ incl (domains_graph g) imports).
 Proof. exact imports_ok_spec. Qed.
 Print Assumptions C02_imports_reflect.
+
+(* the converter's name generator (model of Converter._generate_unique_name over the single _used_vars set shared by
+   all nested scopes): the returned name is new and is recorded, so no later name can coincide with it *)
+Theorem C02_generated_names_fresh : forall cand st r st',
+  gen_unique cand st = Some (r, st') ->
+  ~ In r (ts_used st) /\ ts_used st' = r :: ts_used st /\ ts_next st <= ts_next st'
+  /\ ts_castable st' = ts_castable st /\ ts_orders st' = ts_orders st.
+Proof. exact gen_unique_fresh. Qed.
+Print Assumptions C02_generated_names_fresh.
